@@ -76,7 +76,7 @@ static void run_interp(long &k) {
 		ul nchunks = 1; for (size_t i = 0; i < plen; i++) nchunks *= q;
 		for (ul c = 0; c < nchunks; c++) {
 			long kk = k++;
-			if (thin_out(kk)) continue;
+			if (thin_out(kk) || thin_light(kk)) continue;   // allocation-bound: 1/30 of the chunks under ASan
 			std::vector<ul> prefix; ul t = c; for (size_t i = 0; i < plen; i++) { prefix.push_back(t % q); t /= q; }
 			J d; d.kv("fam", "interpolate-all").kv("q", (long long)q).kv("size", (long long)m).arrn("abscissa_prefix", prefix);
 			if (!case_begin(kk, d.str())) continue;
